@@ -247,6 +247,38 @@ def check(F, rep, tier):
     san_calls = {(mir.callee(t) or "").rsplit("::", 1)[-1] for bi, t in sv.calls() if "utils::sanitize::Sanitizer::" in (mir.callee(t) or "")}
     if san_calls == {"uint", "semver_str"}: rep.ok("R06.8", "SemVer conversion uses the uint and semver_str sanitisers", nontrivial_key="ssan")
     else: rep.bad("R06.8", "semver-sanitisers", "SemVer conversion builds sanitisers %s, expected {uint, semver_str}" % sorted(san_calls), sv.where())
+    # which sanitiser's output decides "this component is an integer": the value parsed for a core number must have been resolved
+    # with the integer sanitiser (uint), otherwise '#42' or '(2024)' count as integers after the text sanitiser strips them
+    for root, short, sinks in ((sv, "SemVer", ("major", "minor", "patch")), (pv, "PEP440", ("release",))):
+        f = mir.inlined(F, root, depth=6, ok=lambda F_, caller, cp, g: g is not None and g.kind != "closure" and "from_zerv" in cp)
+        n = 0
+        for bi, t in f.calls():
+            if not (mir.callee(t) or "").endswith("core::str::<impl str>::parse"): continue
+            ty = (t[1].get("targs") or ["?"])[0]
+            if ty not in ("u32", "u64", "u16", "u8", "usize"): continue
+            sk = set()
+            for s_ in mir.forward_sinks(f, t[3][0], limit=400):
+                if s_[0] == "write": sk.add(s_[1][-1])
+                elif s_[0] == "callarg" and (s_[1] or "").endswith("Vec::<T, A>::push"):
+                    for o in mir.trace_op(f, f.blocks[s_[3]]["t"][2][0]):
+                        if o.fields(): sk.add(o.fields()[-1])
+            if not (sk & set(sinks)): continue
+            # the parsed text: the result of resolve_value(.., sanitizer)
+            ctors = set()
+            for kind, data in mir.deep_origins(f, t[2][0]):
+                if kind == "call" and data.isdigit() and f.blocks[int(data)]["t"][0] == "call":
+                    t2 = f.blocks[int(data)]["t"]
+                    if (mir.callee(t2) or "").endswith("::resolve_value") and len(t2[2]) >= 3:
+                        for k2, d2 in mir.deep_origins(f, t2[2][2]):
+                            if k2 == "call" and d2.isdigit() and f.blocks[int(d2)]["t"][0] == "call":
+                                c3 = mir.callee(f.blocks[int(d2)]["t"]) or ""
+                                if c3.startswith("crate::utils::sanitize::Sanitizer::") and c3.rsplit("::", 1)[-1] != "sanitize": ctors.add(c3.rsplit("::", 1)[-1])
+            n += 1
+            site = "%s bb%d line %s" % (f.where(), bi, f.blocks[bi]["line"])
+            if ctors == {"uint"}: rep.ok("R06.8", "%s: the number written to %s is parsed from a value resolved with Sanitizer::uint()" % (short, sorted(sk & set(sinks))), sample=site, nontrivial_key="intsan%s%d" % (short, bi))
+            elif ctors: rep.bad("R06.8", "integer-classified-with:%s:%s" % (short, "+".join(sorted(ctors))), "%s decides that a core component is an integer on text produced by Sanitizer::%s instead of the integer sanitiser: text that only becomes digits after sanitising (e.g. '#42') is placed as a number" % (short, sorted(ctors)), site)
+            else: rep.undecided("R06.8", "integer-classification:" + short, "cannot relate the parsed text to a resolve_value(.., sanitizer) call", site)
+        rep.floor("R06.8", "core-number parses in %s" % short, n, 1)
     import tables as _t
     _t.sanitizer_presets(F, rep, "R06.8", ("semver_str", "pep440_local_str", "uint", "key"))
     return core.finish(rep, explanation=EXPL, assumptions=ASSUME, trusted=TRUST)
